@@ -230,17 +230,21 @@ func c17Search(r *rand.Rand, bin, dir string, id int) c17Case {
 		args = append(args, "-v")
 	}
 	var env []string
-	switch r.Intn(3) {
+	switch r.Intn(5) {
 	case 0:
 		args = append(args, "--no-color")
 		c.NoColor = true
 	case 1:
 		env = append(env, "NO_COLOR=1")
 		c.NoColor = true
+	case 2: // the environment variable asks for no colour whatever the flag's spelling
+		env = append(env, "NO_COLOR=1")
+		args = append(args, []string{"--no-color=false", "--no-color=true", "--no-color"}[r.Intn(3)])
+		c.NoColor = true
 	}
 	var platforms []string
 	allP, noCross := false, false
-	switch r.Intn(6) {
+	switch r.Intn(7) {
 	case 0:
 		allP = true
 		args = append(args, "--all-platforms")
@@ -251,6 +255,9 @@ func c17Search(r *rand.Rand, bin, dir string, id int) c17Case {
 		platforms = []string{"linux"}
 		noCross = true
 		args = append(args, "--platform", "linux", "--no-cross-platform")
+	case 3: // the switch alone: the host platform is the filter then
+		noCross = true
+		args = append(args, "--no-cross-platform")
 	}
 	args = append(args, "--database", dbfile, q)
 	c.Args, c.Env = intsList(args), env
